@@ -285,7 +285,7 @@ void AspifTextInput::matchAtomArg() {
 	}
 }
 void AspifTextInput::matchStr() {
-	match("\""), push('"');
+	require(ProgramReader::match("\"", false), "'\"' expected"), push('"'); // white space after the opening quote belongs to the string
 	bool quoted = false;
 	for (char c; (c = stream()->peek()) != 0 && (c != '\"' || quoted);) {
 		quoted = !quoted && c == '\\';
